@@ -63,7 +63,62 @@ def isEqual (t1 t2 : PTree τ (Leaf ε)) : Option Bool :=
     some ((List.zipWith arrayEqual t1.leaves t2.leaves).all id)
   else none
 
-/-- `assert_trees_are_different` raises AssertionError iff this is `some true` -/
-def assertDifferentFails (t1 t2 : PTree τ (Leaf ε)) : Option Bool := isEqual t1 t2
+/-- why an assertion helper does not return: the `assert` failed, or `tree.map_structure` raised because the
+structures differ -/
+inductive AssertErr
+  | sameValues          -- AssertionError("The trees have the same value(s) for all leaves.")
+  | differ              -- AssertionError("The trees differ in at least one leaf's value(s).")
+  | structureMismatch   -- ValueError / TypeError of `tree.map_structure`
+  deriving DecidableEq, Repr
+
+/-- `assert_trees_are_different`: `assert not is_equal_pytree(tree1, tree2), …` -/
+def assertDifferent (t1 t2 : PTree τ (Leaf ε)) : Except AssertErr Unit :=
+  match isEqual t1 t2 with
+  | none => .error .structureMismatch
+  | some b => if !b then .ok () else .error .sameValues
+
+/-- `assert_trees_are_equal`: `assert is_equal_pytree(tree1, tree2), …` -/
+def assertEqual (t1 t2 : PTree τ (Leaf ε)) : Except AssertErr Unit :=
+  match isEqual t1 t2 with
+  | none => .error .structureMismatch
+  | some b => if b then .ok () else .error .differ
+
+/-! ### dtype-tagged leaves: `array.at[i].set(value)` CASTS `value` to the array's dtype.  A batched leaf is
+(dtype, slices along axis 0), an element leaf is (dtype, value); `cast from to v` is `v.astype(to)` for a `v` of
+dtype `from`. -/
+
+structure TArr (δ β : Type) where
+  dtype : δ
+  slices : List β
+  deriving DecidableEq, Repr
+
+structure TVal (δ β : Type) where
+  dtype : δ
+  val : β
+  deriving DecidableEq, Repr
+
+variable {δ : Type}
+
+/-- `tree_slice` on typed leaves: `x[i]` has the dtype of `x` -/
+def sliceT (t : PTree τ (TArr δ β)) (i : Int) : Option (PTree τ (TVal δ β)) :=
+  (t.leaves.mapM (fun x => ((staticIdx x.slices.length i).bind (fun k => x.slices[k]?)).map
+      (fun v => ({ dtype := x.dtype, val := v } : TVal δ β)))).map (fun ls => { td := t.td, leaves := ls })
+
+/-- `tree_add_element` on typed leaves.  `array.at[i].set(value)` with operands of different dtypes PROMOTES both to
+`promote array.dtype value.dtype`, scatters, and converts the result back to the array's dtype (JAX's implicit scatter
+promotion) — so with a dtype mismatch EVERY entry of the array takes a round trip through the promoted dtype -/
+def addElementT (promote : δ → δ → δ) (cast : δ → δ → β → β) (t : PTree τ (TArr δ β)) (i : Int)
+    (e : PTree τ (TVal δ β)) : Option (PTree τ (TArr δ β)) :=
+  if t.td = e.td ∧ t.leaves.length = e.leaves.length then
+    some { td := t.td,
+           leaves := List.zipWith (fun (a : TArr δ β) (v : TVal δ β) =>
+             ({ dtype := a.dtype,
+                slices := (Jx.setWD (a.slices.map (cast a.dtype (promote a.dtype v.dtype))) i
+                             (cast v.dtype (promote a.dtype v.dtype) v.val)).map
+                          (cast (promote a.dtype v.dtype) a.dtype) } : TArr δ β)) t.leaves e.leaves }
+  else none
+
+/-- a valid static index of an axis of length `n`, normalised: `-n ≤ i < n` ↦ `i mod n` -/
+def normIdx (n : Nat) (i : Int) : Nat := (Jx.wrapIdx n i).toNat
 
 end Pytree
